@@ -8,7 +8,8 @@ CONSTANTS Mode,        \* "mc" | "edges" | "sim"
           SeqBatches,  \* FALSE: leave out batches that take the sequential fallback (they are
                        \* compositions of Put/Del steps and add no new states, only cost)
           Depth,       \* sim: length of the emitted behaviours
-          NBatch       \* sim: number of random candidate batches offered per step
+          NBatch,      \* sim: number of random candidate batches offered per step
+          NKeys        \* sim: number of randomly drawn keys offered per step (keeps the successor set small)
 
 VARIABLES act, hist, cur
 
@@ -50,10 +51,12 @@ HistJ  == [i \in 1..Len(hist) |-> [act |-> hist[i].act, exp |-> [kv |-> KVList(h
 
 MCInit == Init /\ act = [op |-> "init"] /\ hist = <<>> /\ cur = <<>>
 
+SimKeys == IF Mode = "sim" THEN RandomSubset(NKeys, Keys) ELSE Keys
+
 MCNext ==
-  \/ \E k \in Keys : \E v \in Vals :
+  \/ \E k \in SimKeys : \E v \in Vals :
         Put(k, v) /\ act' = [op |-> "put", k |-> k, v |-> v] /\ Log /\ UNCHANGED cur
-  \/ \E k \in Keys : \E viaUpdate \in BOOLEAN :
+  \/ \E k \in SimKeys : \E viaUpdate \in BOOLEAN :
         Del(k) /\ act' = [op |-> IF viaUpdate THEN "putempty" ELSE "del", k |-> k, v |-> 0]
                /\ Log /\ UNCHANGED cur
   \/ \E ops \in BatchSet :
